@@ -33,7 +33,8 @@ def has_loop(body):
 
 
 class Sym:
-    def __init__(self, P, inline_depth=4, no_inline=(), opaque_names=()):
+    def __init__(self, P, inline_depth=4, no_inline=(), opaque_names=(), effect_names=()):
+        self.effect_names = set(effect_names)
         self.P = P
         self.inline_depth = inline_depth
         self.no_inline = set(no_inline)
@@ -84,7 +85,7 @@ class Sym:
         if k == "return" or k == "tailcall":
             if want == "ret":
                 return env.get(0, ("undef", 0))
-            return ("ret", env.get(0, ("undef", 0)), tuple(sorted(env.get("#eff", ()))))
+            return ("ret", env.get(0, ("undef", 0)), tuple(env.get("#eff", ())))
         if k in ("unreachable", "terminate", "resume"):
             return ("diverge",)
         if k == "assert":
@@ -95,6 +96,10 @@ class Sym:
             v = self._call(body, t, env, depth)
             if t["ret"] is None:
                 return ("diverge",)
+            if self.effect_names and t["f"].get("name") in self.effect_names and v[0] == "call":
+                eff = list(env.get("#eff", ()))
+                eff.append(("callfx", t["f"]["name"], v[2]))
+                env["#eff"] = tuple(eff)
             self._store(body, env, t["dest"], v)
             return self._block(body, t["ret"], env, depth, want)
         if k == "switch":
